@@ -661,7 +661,7 @@ def hull_unit():
 
     return Unit('SrcHull', src, 'GV.Src.Hull', ['GeoVerif.Model.Hull', 'GeoVerif.Model.PyList'], insts, {},
                 attr_types={('Pt', 'longitude'): ('{}.1', 'R'), ('Pt', 'latitude'): ('{}.2', 'R')},
-                hooks={'isinstance': lambda typ: None, 'sorted': sorted_hook, 'loop_fuel': loop_fuel,
+                hooks={'isinstance': lambda typ: None, 'sorted': sorted_hook, 'loop_fuel': loop_fuel, 'float_as_int': True,
                        'keywords': lambda tr, e: getattr(e.func, 'id', None) == 'sorted',
                        'ann_type': lambda ann: {'List[Coordinate]': 'List Pt', 'list[Coordinate]': 'List Pt'}.get(ann),
                        'local_type': lambda qual, name: 'List Pt' if qual == 'convex_hull' else None})
